@@ -94,7 +94,7 @@ def c04norm(t):
 def seg_unit(v, seg, res, tier):
     from hl7apy.parser import parse_segment, parse_message
     from hl7apy.core import Segment
-    if tables.segment_anomaly(v, seg) or seg == 'ANYHL7SEGMENT' or tables.has_gap(v, seg) or tables.row_anomalies(v, seg):
+    if tables.segment_anomaly(v, seg) or seg == 'ANYHL7SEGMENT' or tables.row_anomalies(v, seg):
         res.blocked['segment with anomalous rows (C02 findings)'] += 1
         return
     ec = refmodel.default_ec(v)
